@@ -713,6 +713,103 @@ def rule_pb_threshold(ctx):
     return r
 
 
+def rule_pb_propagate(ctx):
+    r = RuleResult('R-pb-propagate', 'per-node pullback (Function.pullback): on every returning path on which the node has a Taylor-polynomial '
+                                     'output (a UTPM, a tuple of outputs, or no output) the looked-up pullback function pb_<name> is called '
+                                     'and the restoration of an in-place write is reached afterwards - no early exit in between (a test like '
+                                     '`F.xbar == 0` compares coefficient 0 only, and a skipped node neither propagates its adjoint nor rolls '
+                                     'its buffer back)')
+    from .rules_api import _paths
+    m = ctx.model
+    fi = m.func(TRACER, 'Function.pullback')
+    vp = fi.value_params()
+    F = vp[0] if vp else 'F'
+    # the local that holds the looked-up pullback function
+    lookups = {}
+    for st in walk_no_nested(fi.node):
+        if isinstance(st, ast.Assign) and len(st.targets) == 1 and isinstance(st.targets[0], ast.Name) and isinstance(st.value, ast.Call) \
+                and any(isinstance(c_, ast.Constant) and isinstance(c_.value, str) and 'pb_' in c_.value for c_ in ast.walk(st.value)):
+            lookups.setdefault(st.targets[0].id, []).append(st)
+    if not lookups:
+        r.unknown(fi.site(), 'lookup of the pullback function pb_<name> not found')
+        return r
+
+    def carries(t):
+        txt = norm(t)
+        return txt in ('isinstance(%s.x, algopy.UTPM)' % F, 'isinstance(%s.x, UTPM)' % F, 'isinstance(%s.x, tuple)' % F,
+                       'type(%s.x) == type(None)' % F, '%s.x is None' % F)
+
+    def is_pb_call(st):
+        return isinstance(st, ast.Expr) and isinstance(st.value, ast.Call) and isinstance(st.value.func, ast.Name) and st.value.func.id in lookups
+
+    n = 0
+    for i, path in enumerate(_paths(fi.node.body)):
+        stmts = [s_ for s_ in path if not isinstance(s_, tuple)]
+        if not stmts or isinstance(stmts[-1], ast.Raise):
+            continue
+        kind = [norm(t[1]) for t in path if isinstance(t, tuple) and len(t) > 2 and t[2] and carries(t[1])]
+        if not kind:
+            continue
+        n += 1
+        calls = [k for k, s_ in enumerate(path) if not isinstance(s_, tuple) and is_pb_call(s_)]
+        key = 'path:%s' % '|'.join(kind)
+        if not calls:
+            conds = [('' if t[2] else 'not ') + norm(t[1])[:40] for t in path if isinstance(t, tuple) and len(t) > 2 and not carries(t[1])]
+            r.bad(Finding('R-pb-propagate', _f(fi), key + ':no-call:' + '|'.join(conds)[:80],
+                          'Function.pullback returns on the path [%s] (node output: %s) without calling the pullback function: the adjoint of the node is '
+                          'not propagated to its arguments and an in-place write is not rolled back' % (', '.join(conds), kind[0]),
+                          fi.file, getattr(stmts[-1], 'lineno', fi.lineno)))
+            continue
+        after = path[calls[-1] + 1:]
+        if not any(isinstance(t, tuple) and 'setitem' in norm(t[1]) for t in after):
+            r.bad(Finding('R-pb-propagate', _f(fi), key + ':no-restore', 'Function.pullback does not reach the restoration of an in-place write (`is_set(F.setitem)`) '
+                                                                         'after the pullback call on the path with node output %s' % kind[0], fi.file, fi.lineno))
+            continue
+        r.ok(construct=key + ':%d' % i, nontrivial=True, sample='Function.pullback, %s: lookup -> `%s` -> restoration test' % (kind[0], norm(path[calls[-1]])[:40]))
+    if n == 0:
+        r.unknown(fi.site(), 'no returning path with a Taylor-polynomial node output found')
+    r.floor = 3
+    return r
+
+
+def rule_graph_capture(ctx):
+    r = RuleResult('R-graph-capture', 'state kept on the graph object between calls (any attribute of a CGraph stored by one of its methods) never aliases '
+                                      'an array owned by the caller: a value rooted in a method parameter is stored only after a copy (E1 alias analysis). '
+                                      'A remembered reference changes when the caller updates the array in place, so a later call would decide from '
+                                      'the caller\'s current data instead of the data of the remembered call')
+    m = ctx.model
+    eff = ctx.effects
+    ci = m.cls('CGraph')
+    if ci is None:
+        r.unknown(TRACER + ':CGraph', 'class vanished')
+        return r
+    n = 0
+    for fi in ci.all_defs:
+        if fi not in eff.sums or not fi.params or fi.kind in ('classmethod', 'staticmethod'):
+            continue
+        me = fi.params[0]
+        sm = eff.sums[fi]
+        for st in walk_no_nested(fi.node):
+            if not isinstance(st, (ast.Assign, ast.AugAssign)):
+                continue
+            tg = st.targets if isinstance(st, ast.Assign) else [st.target]
+            for t in tg:
+                if not (isinstance(t, ast.Attribute) and isinstance(t.value, ast.Name) and t.value.id == me):
+                    continue
+                n += 1
+                av = sm.assign_avs.get(id(st))
+                roots = flat(av) if av is not None else set()
+                cap = sorted(x[1] for x in roots if x[0] == 'p' and x[1] != me)
+                if cap and fi.name != '__init__':
+                    r.bad(Finding('R-graph-capture', _f(fi), '%s.%s<-%s' % (me, t.attr, ','.join(cap)),
+                                  'CGraph.%s keeps a reference to the caller\'s `%s` in self.%s (`%s`): the remembered state follows later in-place '
+                                  'updates of that array' % (fi.name, ','.join(cap), t.attr, norm(st)[:70]), fi.file, st.lineno))
+                else:
+                    r.ok(construct='%s:self.%s' % (fi.name, t.attr), sample='CGraph.%s: `%s` (roots %s)' % (fi.name, norm(st)[:60], sorted(roots)[:3]))
+    r.floor = 3
+    return r
+
+
 def rule_pb_setitem_clear(ctx):
     r = RuleResult('R-pb-setitem-clear', 'the pullback of an in-place write y[sl] = x clears the adjoint of the overwritten entries '
                                          '(ybar[sl] = 0) on every returning path - whatever the kind of x: the old contents of y[sl] no '
